@@ -5,9 +5,9 @@ META = {
     'category': 'proof',
     'technique': 'Coq invariants, one machine-checked counter-example and two regression examples of repaired defects over a gate-level interleaving model of dispenso::pipeline with throwing stages + lockstep replay of generated schedules (and of the counter-examples) on the real pipeline() with lifetime-tracked payloads + native histories',
     'text': 'The property was FALSE of the code in three ways.  Two are repaired in /repo and their Coq witnesses are now regression Examples replayed on the real code on every '
-            'check: the hang (1a07319: a queued generator instance skipped by the cancelled packageTask wrapper never counted the completion latch down; the CompletionGuard is now '
+            'check: the hang (0db1b9f: a queued generator instance skipped by the cancelled packageTask wrapper never counted the completion latch down; the CompletionGuard is now '
             'owned by the task by value; C29_hang_regression, C29_completion_latch_owned: latch = instances that have not passed their guard, in every reachable state) and the escape '
-            '(f2764c3: a generator instance run inline inside execute() let its exception leave pipeline() while other instances referenced the pipes; the functor now records it in '
+            '(eb2d079: a generator instance run inline inside execute() let its exception leave pipeline() while other instances referenced the pipes; the functor now records it in '
             'the task set; C29_escape_regression, C29_generator_catches).  One remains a known finding: C29_refuted (a limited-stage task already handed to the task set is skipped by '
             'the cancelled wrapper; the OnceFunction it wraps is never invoked nor cleaned up: the item payload leaks).  Proved for all schedules: pipeline() rethrows exactly when an '
             'exception was captured and rethrows the first (then only) captured one (C29_first_exception_rethrown), no item twice (C29_no_item_twice), a generator instance that sees '
@@ -19,7 +19,7 @@ META = {
 ASSUMPTIONS = [
     'sequentially consistent interleaving of the hooked gate operations; code between two hooks runs atomically in the lockstep runs (the theorems allow a switch after every frame transition)',
     'thread pool / ConcurrentTaskSet abstracted: a dispatched task is popped at most once (bag), schedule() either runs it inline or queues it, packageTask skips it when cancelled',
-    'the model would stop where an exception leaves execute(); since /repo f2764c3 the generator functor catches (C29_generator_catches), that no thread ever reaches that state is shown on the former witness and by the lockstep runs, not proved in general',
+    'the model would stop where an exception leaves execute(); since /repo eb2d079 the generator functor catches (C29_generator_catches), that no thread ever reaches that state is shown on the former witness and by the lockstep runs, not proved in general',
     'that a captured exception was thrown by some stage is checked on the implementation\'s log only (not proved in Coq); termination is refuted, not proved',
     'native exception runs use one generator instance (a native hang would only end with the harness alarm)',
 ]
@@ -30,7 +30,7 @@ def run(ctx):
     exe = pc.harness()
     ctx.phase('build')
     r = ctx.rng
-    # 1. the witness of the remaining known finding (leak) and the former witnesses of the repaired ones (hang 1a07319, escape f2764c3),
+    # 1. the witness of the remaining known finding (leak) and the former witnesses of the repaired ones (hang 0db1b9f, escape eb2d079),
     #    replayed on the real code first; the repaired ones must now agree with the model and satisfy the property
     wk, wt = pc.run_lockstep(ctx, exe, [pc.WIT_LEAK, pc.WIT_HANG, pc.WIT_ESCAPE])
     # 2. generated cases with exceptions
